@@ -3,6 +3,7 @@
 VERIF="$(cd "$(dirname "$0")" && pwd)"
 TIER="${1:-quick}"; shift
 SEEDS="${@:-1}"
+export CARGO_NET_OFFLINE=true BLVERIF_DIR="$VERIF" BLVERIF_BUILD="$VERIF/.build"
 mkdir -p "$VERIF/.build"
 "$VERIF/build.sh" > "$VERIF/.build/build.log" 2>&1 || { echo BUILD FAILED; tail -20 "$VERIF/.build/build.log"; exit 2; }
 for seed in $SEEDS; do
